@@ -41,3 +41,42 @@ Theorem C11_returns_clean :
   forall k, tget (syncs w) k <> Some sid /\ tget (rbcs w) k <> Some sid /\ tget (cls w) k <> Some sid.
 Proof. exact no_residue. Qed.
 Print Assumptions C11_returns_clean.
+
+(* ------------------------------------------------------------------------------------------------
+   The built-in DKG backends (TBLS.KeyGen / TPS.KeyGen): "never block indefinitely once the context is cancelled or
+   expires, regardless of the point at which any peer stopped participating".  Appended by the dkg engine; proofs in
+   TSS.Alg.WaitModel (the wake-up protocol of the three waits: condition variable, one monitor goroutine that signals
+   once when the context is done, waiter loop "context? all in? Wait") and TSS.Alg.DKG (what the phase machine does then).
+   Tie: harness/dkg cancel (real instances: context done before the call / while sending / while parked / deadline with
+   peers silent after their k-th message, each KeyGen under a 2 s watchdog), run from this property's check. *)
+Require TSS.Alg.WaitModel TSS.Alg.DKG.
+
+(* no lost wake-up: from every reachable state of the wait in which the context is done, once the monitor goroutine and
+   then, twice, the KeyGen goroutine get to run -- whatever else happens before, in between and after: deliveries,
+   signals, further steps -- the wait has returned *)
+Theorem C11_backend_wait_returns :
+  forall s, WaitModel.reachable false s -> WaitModel.ctx_done s = true ->
+  forall a b c d,
+    WaitModel.waiter (WaitModel.run false s (a ++ [WaitModel.MonitorFires] ++ b ++ [WaitModel.WaiterStep] ++ c ++
+                                             [WaitModel.WaiterStep] ++ d)) = WaitModel.Returned.
+Proof. exact WaitModel.wait_returns. Qed.
+Print Assumptions C11_backend_wait_returns.
+
+(* the loop that parks first and looks at the context only after waking up loses the monitor's only signal: a KeyGen that
+   reaches the wait after the context is done, with a value missing, sleeps for ever (nothing but a peer wakes it) *)
+Theorem C11_backend_wait_sleep_first_refuted :
+  exists s, WaitModel.reachable true s /\ WaitModel.ctx_done s = true /\
+            forall evs, Forall WaitModel.quiet evs -> WaitModel.waiter (WaitModel.run true s evs) = WaitModel.Parked.
+Proof. exact WaitModel.wait_returns_sleep_first_refuted. Qed.
+Print Assumptions C11_backend_wait_sleep_first_refuted.
+
+(* and once the wait has returned with the context done, KeyGen sends nothing more and returns the error *)
+Theorem C11_backend_cancelled_returns_error :
+  forall (S V C : Type) (add : S -> S -> S) (pub : S -> V) (H : V -> C) (C_eqb : C -> C -> bool)
+         (crosscheck : list V -> bool) (tpk_of : list V -> V) (parties : list nat) (self : nat)
+         (st : DKG.state S V C),
+  DKG.ctx_done S V C st = true -> DKG.waiting S V (DKG.ph S V C st) = true ->
+  DKG.step S V C add pub H C_eqb crosscheck tpk_of parties self st DKG.Wake =
+  (DKG.set_ph S V C st DKG.Failed, [DKG.Return DKG.RErr]).
+Proof. exact DKG.ctx_done_fails. Qed.
+Print Assumptions C11_backend_cancelled_returns_error.
